@@ -191,3 +191,65 @@ def clean_stream_check(p):
             break
     return {"name": "clean_p1_stream (C05 lemma as bounded stand-in)", "bound": f"{n} streams of 1..200 well-formed readouts (0..40 data lines), fixed-size chunks 1/7/64/100/1000/4096/whole and random cuts", "evaluations": ev,
             "distinct_nontrivial": len(distinct), "violations": bad[:2]}
+
+def p1_ideal_functions(s):
+    """the ghost functions of props/clean_p1.py on a concrete stream: A0, and for every line start p >= A0: in_readout, readout_start, readouts_before;
+    also checks the hypotheses CLEAN(p) (identification / data / end lines, sizes, no '/' in the leading tail)"""
+    bad = []
+    A0 = s.find(b"/"); A0 = len(s) if A0 < 0 else A0
+    IN = {}; RS = {}; NRO = {}; p = A0; inr = False; rs = None; n = 0
+    IN[A0] = False; NRO[A0] = 0
+    while p < len(s):
+        e = s.find(b"\n", p)
+        if e < 0: bad.append(f"the transmission does not end with a complete line (line start {p})"); break
+        line = s[p:e + 1]; IN[p] = inr; RS[p] = rs; NRO[p] = n
+        if not inr:
+            if not (line[:1] == b"/" and line.isascii() and spec_is_ident(line.decode("ascii"))): bad.append(f"line at {p} should be an identification line")
+            if e + 1 - p > 8191: bad.append("identification line too long")
+            inr = True; rs = p
+        else:
+            if e + 1 - rs > 8191: bad.append(f"readout starting at {rs} is longer than the bound")
+            if line[:1] == b"!": inr = False; n += 1
+        p = e + 1
+    IN[p] = inr; RS[p] = rs; NRO[p] = n
+    return A0, IN, RS, NRO, bad
+
+def p1_ideal_check(p):
+    """the clean-stream contract of ModeDReader.read() (props/clean_p1.py) evaluated on the real reader after every call (bounded: generated streams)"""
+    rnd = random.Random(p.get("seed", 0)); n = p.get("n", 200); ev = 0; distinct = set(); bad = []
+    for it in range(n):
+        k = rnd.randrange(1, 12 if it % 10 else 60); ros = []
+        for _ in range(k):
+            ident = rnd.choice([b"/AUX5UXXXXXXXXXXXXXXX", b"/KFM5KAIFA-METER", b"/ADN9 6534", b"/ABC5"]); eol = rnd.choice([b"\r\n", b"\n"])
+            lines = [rnd.choice([b"1-0:1.8.0(00006678.394*kWh)", b"0-0:1.0.0(210217184019W)", b"1-0:32.7.0(240.3*V)", b"", b"x y"]) for _ in range(rnd.randrange(0, 25))]
+            body = ident + eol + eol + b"".join(l + eol for l in lines) + b"!"
+            ros.append(body + ((b"%04X" % sp.crc16_arc(body)) if rnd.random() < 0.85 else b"") + eol)
+        tail = rnd.choice([b"", b"", b"7.0(240.3*V)\r\n!ABCD\r\n", b"\r\n", b"0-0:96.1.1(4B38)\r\n"])
+        s = tail + b"".join(ros)
+        A0, IN, RS, NRO, hyp = p1_ideal_functions(s)
+        if hyp: bad.append({"why": "the generated clean stream does not satisfy the hypotheses of the lemma: " + hyp[0]}); break
+        size = rnd.choice([1, 3, 7, 64, 100, 1000, len(s)])
+        cuts = list(range(size, len(s), size)) if rnd.random() < 0.6 else sorted(rnd.sample(range(len(s) + 1), min(len(s) + 1, rnd.randrange(0, 12))))
+        r = dlde.ModeDReader(); got = []; why = None
+        for a, b in zip([0] + cuts, cuts + [len(s)]):
+            got += r.read(s[a:b]); ev += 1
+            pl = len(r._buffer._buffer) - r._buffer._buffer_pos; ls = b - pl
+            if b <= A0:
+                if not r.is_in_hunt_mode or pl or got: why = f"position {b} (before the first readout): not hunting, or something buffered / returned"
+            elif ls not in IN: why = f"position {b}: the unconsumed part starts at {ls}, which is not a line start of the clean stream"
+            elif r.is_in_hunt_mode != (not IN[ls]): why = f"position {b}: hunt mode {r.is_in_hunt_mode}, in_readout({ls}) = {IN[ls]}"
+            elif IN[ls] and bytes(r._raw_data) != s[RS[ls]:ls]: why = f"position {b}: collected octets are not the stream from {RS[ls]} to {ls}"
+            elif len(got) != NRO[ls]: why = f"position {b}: {len(got)} readouts returned, {NRO[ls]} end lines consumed"
+            if why: break
+        if not why and ([g.as_bytes for g in got] != ros or not all(g.is_valid for g in got)): why = "readouts returned differ from the readouts sent"
+        distinct.add((len(s), size, k))
+        if why: bad.append({"why": why, "cuts": cuts[:12], "stream_len": len(s), "readouts": k}); break
+    return {"name": "p1_ideal_check (contract of ModeDReader.read() on clean streams, evaluated on the real reader)", "bound": f"{n} generated clean streams of 1..60 readouts x fixed-size and random chunkings; hypotheses of the lemma checked on every stream",
+            "evaluations": ev, "distinct_nontrivial": len(distinct), "violations": bad[:2]}
+
+def replay_clean_p1(p):
+    r = p1_ideal_check({"seed": 8, "n": 300})
+    if r["violations"]: return {"violated": True, "detail": r["violations"][0], "found_by": "bounded search over generated clean streams"}
+    r2 = clean_stream_check({"seed": 3, "n": 120})
+    if r2["violations"]: return {"violated": True, "detail": r2["violations"][0], "found_by": r2["name"]}
+    return {"violated": False, "inconclusive": True, "detail": "no generated clean stream breaks the contract on the real reader"}
